@@ -711,6 +711,10 @@ func vxPick(ty *cqlspec.Type, vs []cqlspec.Value, ch *vxCh, role int, key bool) 
 			for _, v := range nn {
 				all = append(all, v.Elems...)
 			}
+			if anyNull {
+				// a null tuple is read back as a tuple of nulls: the element type must be able to say null
+				all = append(all, cqlspec.NullValue())
+			}
 			et := vxPick(ty.Elems[0], all, ch, role, false)
 			if ch.next(2) == 0 {
 				base = reflect.SliceOf(et)
